@@ -272,6 +272,7 @@ func genC17(s uint64, idx int) *Plan {
 		// reached through ech.Transport, as an http.Client does
 		p.ViaTransport, p.Network = true, "tcp"
 		p.OwnDialer = (idx/8)%2 == 1
+		p.Again = (idx/16)%2 == 1 && !p.CallerNil
 		p.CallerNoALPN = core.Chance(r, 1, 2)
 		for _, ip := range g.ips { // (sorted above)
 			o, ok := p.Outcomes[ip]
